@@ -1,4 +1,5 @@
 import LoraVerif.Props.TieA.MacCmdFrame
+import LoraVerif.RtBits
 /-!
 # Tie A for the framing step of ANY `CommandHandler` set: the set-independent part (builder F, C03)
 
@@ -249,3 +250,98 @@ macro "arm_toEnd" po:ident : tactic =>
       rw [hs]
       simp [TieA.MacCmdFrame.toOpt, TieA.MacCmdFrame.oneUp, TieA.MacCmdFrame.cmdUp, TieA.FrameGen.ints_cons]
       try omega))
+
+namespace TieA.FrameGen
+open MacCmd TieA.MacCmdFrame
+
+/-- the model's `parse_one` on a lone CID of a variable-length command: `Truncated` (no `len()` helper is called) -/
+theorem model_var_nil (T : Table) (vl : VarLen) (cid : Nat) (v pt : String)
+    (h : T.lookup cid = some ⟨cid, none, v, pt⟩) :
+    parseOne T vl [cid] = .ok (.error (.truncated cid)) := by
+  unfold parseOne
+  simp [index, h, sliceFrom]
+
+/-- the model's `parse_one` on a TS005 `McGroupStatusAns`: the status octet decides the length -/
+theorem model_status (T : Table) (vl : VarLen) (cid : Nat) (v pt : String) (b : Nat) (t : List Nat)
+    (h : T.lookup cid = some ⟨cid, none, v, pt⟩)
+    (hv : ∀ b t, vl pt (b :: t) = .ok (1 + mcGroupStatusRequiredLen b)) :
+    parseOne T vl (cid :: b :: t) =
+      if t.length + 1 < 1 + mcGroupStatusRequiredLen b then .ok (.error (.truncated cid))
+      else .ok (.ok (⟨cid, v, pt, (b :: t).take (1 + mcGroupStatusRequiredLen b)⟩, 1 + (1 + mcGroupStatusRequiredLen b))) := by
+  unfold parseOne
+  have h1 : 1 ≤ t.length + 1 + 1 := by omega
+  simp only [index, List.getElem?_cons_zero, Outcome.ok_bind, h, sliceFrom, List.length_cons, h1, if_true, List.drop_succ_cons,
+    List.drop_zero, List.isEmpty_cons, Bool.false_eq_true, if_false, hv]
+  by_cases hl : t.length + 1 < 1 + mcGroupStatusRequiredLen b
+  · simp only [hl, if_true]
+  · have h2 : 0 ≤ 1 + mcGroupStatusRequiredLen b ∧ 1 + mcGroupStatusRequiredLen b ≤ t.length + 1 := by omega
+    simp only [hl, if_false, slice, List.length_cons, h2, and_self, if_true, Outcome.ok_bind, List.drop_zero, Nat.sub_zero]
+
+theorem countOnesNat_zero : ∀ k, Rt.countOnesNat k 0 = 0 := by
+  intro k
+  induction k with
+  | zero => rfl
+  | succ k ih => simp [Rt.countOnesNat, ih]
+
+theorem countOnes16 (m : Nat) (h : m < 16) : Rt.countOnesNat 128 m = popcount4 m := by
+  have e : (128 : Nat) = 124 + 1 + 1 + 1 + 1 := rfl
+  have st : ∀ k n, Rt.countOnesNat (k + 1) n = n % 2 + Rt.countOnesNat k (n / 2) := by
+    intro k n
+    by_cases hn : n = 0
+    · subst hn; simp [Rt.countOnesNat, countOnesNat_zero]
+    · simp [Rt.countOnesNat, hn]
+  rw [e, st, st, st, st]
+  unfold popcount4
+  have h0 : m / 2 / 2 / 2 / 2 = 0 := by omega
+  have h4 : m / 2 / 2 = m / 4 := by omega
+  have h8 : m / 2 / 2 / 2 = m / 8 := by omega
+  rw [h0, countOnesNat_zero]
+  omega
+
+/-- `(status & 0b1111).count_ones()` as generated is the model's `popcount4` of the low nibble -/
+theorem countOnes_and15 (b : Nat) : Rt.countOnes (Rt.andI (b : Int) 15) = ((popcount4 (b &&& 0b1111) : Nat) : Int) := by
+  have hm : b &&& 15 < 16 := Nat.lt_of_le_of_lt Nat.and_le_right (by decide)
+  have hp : (0 : Int) ≤ (b : Int) ∧ (0 : Int) ≤ 15 := by omega
+  unfold Rt.countOnes Rt.andI
+  rw [if_pos hp]
+  have := countOnes16 (b &&& 15) hm
+  simp [this]
+
+end TieA.FrameGen
+
+namespace TieA.FrameGen
+open TieA.MacCmdFrame
+theorem slice0take (r : List Nat) (n : Nat) (k : Int) (hk : k = (n : Int)) (h : n ≤ r.length) :
+    Rt.slice (ints r) 0 k = some (ints (r.take n)) := by
+  have := slice_ints r 0 n
+  subst hk
+  simpa [h] using this
+end TieA.FrameGen
+
+/-- the arm of TS005 `McGroupStatusAns` (`len()` = `1 + required_len(self.0[0])`) of a regenerated `parse_one` against the
+model; the hand-written `len` / `required_len` / `McGroupStatusItem::len` are `[local simp]` at the call site -/
+macro "arm_status" po:ident : tactic =>
+  `(tactic| (
+    intro rest hlen
+    cases rest with
+    | nil =>
+      rw [TieA.FrameGen.model_var_nil _ _ _ _ _ (by rfl)]
+      unfold $po
+      simp [TieA.FrameGen.idx0', TieA.FrameGen.sliceFrom1, TieA.MacCmdFrame.toOpt, TieA.MacCmdFrame.oneUp]
+    | cons b t =>
+      rw [TieA.FrameGen.model_status _ _ _ _ _ b t (by rfl) (by intro b t; rfl)]
+      unfold $po
+      have hk : MacCmd.popcount4 (b &&& 0b1111) ≤ 4 := by unfold MacCmd.popcount4; omega
+      simp only [MacCmd.mcGroupStatusRequiredLen, TieA.FrameGen.idx0', TieA.FrameGen.sliceFrom1, Option.bind_eq_bind, Option.bind_some]
+      simp [TieA.FrameGen.ints_cons, TieA.FrameGen.countOnes_and15, Rt.idx]
+      by_cases hl : t.length + 1 < 1 + MacCmd.popcount4 (b &&& 15) * 5
+      · simp (disch := omega) [Rt.ck_usize, hl]
+        rw [if_pos (by omega)]
+        simp [TieA.MacCmdFrame.toOpt, TieA.MacCmdFrame.oneUp]
+      · have hs := TieA.FrameGen.slice0take (b :: t) (1 + MacCmd.popcount4 (b &&& 15) * 5)
+          (1 + (MacCmd.popcount4 (b &&& 15) : Int) * 5) (by omega) (by simp only [List.length_cons]; omega)
+        simp only [TieA.FrameGen.ints_cons] at hs
+        simp (disch := omega) [Rt.ck_usize, hl]
+        rw [if_neg (by omega), hs]
+        simp [TieA.MacCmdFrame.toOpt, TieA.MacCmdFrame.oneUp, TieA.MacCmdFrame.cmdUp, TieA.FrameGen.ints_cons]
+        try omega))
